@@ -1012,6 +1012,26 @@ func c14ReplayCase(i int, raw []byte) Result {
 	}
 	chunks := c14MakeChunks(c.Chunks)
 	embs := c14Embeddings(c.Chunks)
+	if c.Mode != "filter" && len(c.Preds) > 0 {
+		// the collection handed to the exporter is what the real filters select
+		cur := rag.NewChunkCollection(chunks)
+		for _, p := range c.Preds {
+			next, err := c14ApplyPred(cur, p)
+			if err != nil {
+				return fail("decode", "decode", err.Error(), nil)
+			}
+			cur = next
+		}
+		pos := map[*rag.Chunk]int{}
+		for n, ch := range chunks {
+			pos[ch] = n
+		}
+		var fe [][]float64
+		for _, ch := range cur.Chunks {
+			fe = append(fe, embs[pos[ch]])
+		}
+		chunks, embs = cur.Chunks, fe
+	}
 	switch c.Mode {
 	case "export":
 		if len(c.Batches) != 1 {
